@@ -13,6 +13,8 @@ extern crate std;
 pub mod atomic;
 pub mod frame;
 pub mod util;
+#[cfg(feature = "verif")]
+pub mod verif;
 pub mod wrapper;
 
 mod bitfield;
